@@ -219,7 +219,11 @@ def run(ctx: Ctx, extended: bool = False) -> None:
         if snapshot(s) != snap_s or snapshot(a) != snap_a or snapshot(key) != snap_k:
             ctx.fail(e.cid, "argument_bytes_changed", "the arrays passed to reset/step changed", info, {"cls": e.cls})
         if not full:
-            ctx.sample({"env": e.cid, "variants": ["eager", "jit-repeat", "result-aliasing"]})
+            # a second instance built with the same constructor arguments must reset to the same state (the construction of the first one,
+            # or of any other, must not have left anything behind): cheap enough for every configuration
+            if not e.meta.get("heavy"):
+                record("fresh-instance:reset", jax.jit(e.build().reset)(key), ref_reset)
+            ctx.sample({"env": e.cid, "variants": ["eager", "jit-repeat", "result-aliasing", "fresh-instance:reset"]})
             continue
         # --- the LAST transition of a mask-following episode (completion, exact fit, time limit): decisions taken on float results are
         # where eager and compiled execution part first
